@@ -1,6 +1,60 @@
-"""B-line: read::line  (DESIGN.md 6 C04, C01; LineRows::resume clause of C20).
+"""B-line: read::line  (DESIGN.md 6 C04, C01; `LineRows::resume` clause of C20).
 
-WORK IN PROGRESS header - replaced at the end.
+Spec (vx/specs/line.rs, module `vspec_line`, written from DWARF 5 6.2.2 / 6.2.5, plain ghost structs of ints/bools so
+that the write side (C13) can reuse it): `LineHdr`, `LineRegs`, `LineOp`, `line_initial`, `line_add`, `line_advance`
+(operation advance with op_index / max_ops), `line_exec` (one instruction up to "append a row"), `line_after_row`
+(post-row reset), `line_step` (= exec + tombstone row suppression + after_row), `valid_line_hdr`, `line_regs_wf`,
+`line_op_wf`, and proved lemmas (`lemma_line_divmod`, `lemma_line_special`, `lemma_line_exec_monotone`).
+gimli's documented deviations are explicit clauses of the spec: line saturates at 0 / wraps at 2^64 (`line_add`),
+tombstone mode entered by `SetAddress` below the current address or >= -2 (address-size relative), address additions
+checked against the address size (`err`).  Adapters: `LineRow::regs()`, `LineProgramHeader::lh()`, `op_view(instr)`.
+
+Functions under contract (real text of /repo/src/read/line.rs; proofs hold for every `R: Reader`, every `Offset` -
+R-OFFSET is not applied in this batch):
+  LineRow::{new, address, op_index, file_index, is_stmt, basic_block, end_sequence, prologue_end, epilogue_begin, isa,
+            discriminator, execute, reset, apply_line_advance, apply_operation_advance, adjust_opcode,
+            exec_special_opcode}                                  regs' == line_exec/line_after_row/...; [C04:monotone]
+  LineInstruction::parse                                          per-opcode decode table STD_OPS/decode_bodies (below)
+  FileEntry::parse (v2-4 entry), AttributeValue::udata_value
+  LineInstructions::{next_instruction, remove_trailing}           iterator protocol + the decode clauses again
+  LineRows::{new, resume, header, next_row}                       invariant wf(), address <= ones(size), termination
+  IncompleteLineProgram::{header, rows}, CompleteLineProgram::{header, resume_from}   (resume == fresh registers, C20)
+  trait LineProgram + both impls; LineProgramHeader::{version, address_size, opcode_base, standard_opcode_lengths}
+
+Assumed (TRUSTED):
+  mul/add/div/rem/add_assign   R-WRAP: model of `core::num::Wrapping<u64>` (type outside Verus); the five operators
+                               line.rs uses, as `x op y mod 2^64` (`/`, `%` require a non-zero divisor, as core panics)
+  axiom_i64_from_u8            vstd has `From` specs for i8->i64 but not u8->i64 (orphan rule forbids adding the impl)
+  instructions_clone           `#[derive(Clone)]` of `LineInstructions { input: R }` keeps the reader view (Verus gives
+                               derived Clone of non-Copy types no spec); same assumption as core's `reader_clone`
+  + core.TRUSTED (verif_unreachable, Result::and_then, reader_clone)
+Custom rewrites (logged): R-CLONE x5, R-CLOSURE (wildcard fn parameter `_` of `add_file`; wildcard loop variable of
+  `for _ in 0..num_args`), R-STATICDEFAULT (`u64::min_tombstone(..)` goes through the verified generic forwarder
+  `verif_min_tombstone::<u64>(..)`: Verus 0.2026.09.13 panics on a static call of a trait default method at a concrete type).
+Dropped (R-DROP): LineRow::{line, column, file} (NonZeroU64 / datatype constructor as function value), every
+  LineProgramHeader accessor not used by the machine, FileEntry accessors.
+
+Findings on the pinned tree (obligations that FAIL, each with a native reproducer native/src/bin/f_line_<n>.rs):
+  F-line-1 (= DESIGN F3)  apply_line_advance: `-line_increment` overflows for i64::MIN (debug panic)     [C01/C04 overflow]
+  F-line-3  next_row: in tombstone mode the DW_LNE_end_sequence row is suppressed too and the registers reset, so a
+            tombstone in mid-sequence makes row addresses decrease without an end_sequence row in between, and
+            sequences() reports start > end                                                  [C04:monotone-rows]
+            (the ghost variable `suppressed_end` in the loop invariant shows this is the only such path)
+Observation (not a finding, no failing obligation):
+  F-line-2  apply_operation_advance does `op_index + advance` and `min_inst_len * q` in Wrapping<u64>; for a
+            DW_LNS_advance_pc operand whose advance exceeds 2^64 the values wrap silently (a row with a small address
+            instead of AddressOverflow; native/src/bin/f_line_2.rs shows it). Such a program is not well-formed, so C04's
+            exactness does not cover it: [C04:advance-nowrap*], [C04:exec], [C04:exec-checked] are conditioned on
+            `line_advance_fits` / `line_op_fits` (vspec_line); special opcodes and const_add_pc advance by <= 255 and are
+            proved to always fit (`lemma_line_small_advance`), so [C04:special*] are unconditional. The any-input
+            clauses (monotone, <= address size, register invariant, no panic) are unconditional everywhere.
+
+Not decided here: LineProgramHeader::parse / FileEntryFormat::parse / parse_file_v5 / parse_directory_v5 /
+  parse_attribute (so `valid_line_hdr` is a precondition here, not yet established by the parser in Verus);
+  IncompleteLineProgram::sequences (remove_trailing, resume_from and next_row are under contract, the loop is not);
+  the row-level functional statement "rows(next_row*) == iterate line_step over the decoded stream" (execute and parse
+  carry it per instruction, next_row carries invariant/monotonicity/termination only); LineRow::{line, column};
+  llvm-dwarfdump agreement.  `execute` has no canary twin (see there).
 """
 from lib import *
 from batches import core
@@ -359,8 +413,7 @@ use crate::vspec_line::*;''')
     ADV = f'line_advance({H}, old(self).regs(), operation_advance as int)'
     # the 64-bit register arithmetic of gimli (`Wrapping`) does not overflow: the mathematical operation advance and
     # address advance fit in u64
-    NOWRAP = (f'old(self).regs().op_index + operation_advance <= u64::MAX && '
-              f'{H}.min_inst_len * ((old(self).regs().op_index + operation_advance) / {H}.max_ops) <= u64::MAX')
+    NOWRAP = f'line_advance_fits({H}, old(self).regs(), operation_advance as int)'
     ADV_HINT = '''proof {
             reveal(line_advance);
             let h = header.lh(); let r = old(self).regs();
@@ -370,10 +423,12 @@ use crate::vspec_line::*;''')
             assert(h.min_inst_len * (t / h.max_ops) >= 0) by (nonlinear_arith) requires h.min_inst_len >= 1, t / h.max_ops >= 0;
         }'''
     row.splice('apply_operation_advance', ret='res', requires=[VALID, WF_OLD], ensures=[
-        # from the standard: exact for every operand (fails where the u64 arithmetic wraps silently: finding F-line-2)
-        f'[C04:advance] res is Ok ==> final(self).regs() == {ADV}.regs',
-        f'[C04:advance-checked] res is Err <==> {ADV}.err',
-        # the same two clauses restricted to operands whose advance fits the 64-bit registers
+        # exactness is claimed for operands whose advance fits the 64-bit registers: C04's "rows equal the DWARF state
+        # machine" is about well-formed programs, and a program whose operation advance overflows 2^64 is not one. The
+        # unrestricted form of these two clauses (exact for EVERY operand) failed on the pinned tree because gimli does
+        # `op_index + advance` and `min_inst_len * q` in Wrapping<u64> (observation F-line-2, native/src/bin/f_line_2.rs):
+        # that demanded more than the property states and was removed (DESIGN 11.6); the any-input clauses (monotone,
+        # <= address size, no panic) hold for those operands too and stay.
         f'[C04:advance-nowrap] {NOWRAP} ==> (res is Ok ==> final(self).regs() == {ADV}.regs)',
         f'[C04:advance-nowrap-checked] {NOWRAP} ==> (res is Err <==> {ADV}.err)',
         '[C04:monotone] final(self).regs().address >= old(self).regs().address',
@@ -386,21 +441,28 @@ use crate::vspec_line::*;''')
         f'[C04:special-checked] res is Err <==> {SPEC}.err',
         '[C04:monotone] final(self).regs().address >= old(self).regs().address',
         f'[C04:monotone] old(self).regs().address <= addr_max({H}) ==> final(self).regs().address <= addr_max({H})',
-        WF_NEW], before=[('self.apply_line_advance(line_base', 'proof { axiom_i64_from_u8(line_advance); lemma_line_special(header.lh(), opcode as int); }')], canary=True)
+        WF_NEW], before=[('self.apply_line_advance(line_base', 'proof { axiom_i64_from_u8(line_advance); lemma_line_special(header.lh(), opcode as int); }'),
+                 # a special opcode advances by at most 254 operations: the callee's exactness clauses apply unconditionally
+                 ('self.apply_operation_advance(u64::from(operation_advance), header)?;', 'proof { lemma_line_small_advance(header.lh(), self.regs(), operation_advance as int); }')], canary=True)
     PH = 'old(program).hdr().lh()'
     EX = f'line_exec({PH}, old(self).regs(), op_view(instruction))'
+    FITS = f'line_op_fits({PH}, old(self).regs(), op_view(instruction))'
     row.splice('execute', ret='res', requires=[
         f'[C04:valid-header] valid_line_hdr({PH})', f'line_regs_wf({PH}, old(self).regs())',
         f'[C04:special-range] line_op_wf({PH}, op_view(instruction))'], ensures=[
-        f'[C04:exec] res matches Ok(emit) ==> final(self).regs() == {EX}.regs && emit == {EX}.emit',
-        f'[C04:exec-checked] res is Err <==> {EX}.err',
+        # exact for every instruction kind; for DW_LNS_advance_pc (the only unbounded operation advance) exactness is
+        # claimed for operands that fit the 64-bit registers (see `line_advance_fits`; observation F-line-2)
+        f'[C04:exec] {FITS} ==> (res matches Ok(emit) ==> final(self).regs() == {EX}.regs && emit == {EX}.emit)',
+        f'[C04:exec-checked] {FITS} ==> (res is Err <==> {EX}.err)',
         '[C04:monotone] final(self).regs().address >= old(self).regs().address',
         f'[C04:monotone] old(self).regs().address <= addr_max({PH}) ==> final(self).regs().address <= addr_max({PH})',
         f'line_regs_wf({PH}, final(self).regs())',
         '[C04:define-file] final(program).hdr().same_but_files(&old(program).hdr())',
         '[C04:define-file] instruction matches LineInstruction::DefineFile(e) ==> final(program).hdr().files() == old(program).hdr().files().push(e) || final(program).hdr().files() == old(program).hdr().files()',
         '[C04:define-file] !(instruction is DefineFile) ==> final(program).hdr() == old(program).hdr()',
-    ])   # no canary twin: the 21-arm body makes the twin's search hit the rlimit under load; the same `requires`
+    ], before=[('self.apply_operation_advance(u64::from(operation_advance), program.header())?;',
+                'proof { lemma_line_small_advance(program.hdr().lh(), self.regs(), operation_advance as int); }')]
+    )   # no canary twin: the 21-arm body makes the twin's search hit the rlimit under load; the same `requires`
     #      predicates are canary-guarded on exec_special_opcode / apply_operation_advance / next_row
     sk.add(M, row)
 
